@@ -5,7 +5,7 @@ COLS = ["modeltypes", "config", "models", "columns"]
 MC = "sqllineage.core.models.Column."
 FUNCTIONS = ["sqllineage.core.holders.SubQueryLineageHolder.get_alias_mapping_from_table_group"] + [
     (MC + f, COLS) for f in ("__init__", "parent", "parent@setter", "parent_candidates", "to_source_columns")
-]
+] + [("sqllineage.core.holders.SubQueryLineageHolder." + f, ["modeltypes", "config", "metadata", "holders", "holders_c06"]) for f in ("_get_target_table", "get_source_columns")]
 EXPLANATION = (
     "Exactness of single-statement column lineage is, for the most part, a statement about the meaning of SQL text as parsed "
     "by sqlfluff/sqlparse grammars, which no contract on the repository's code can express (same reason as C01). What the "
